@@ -1,4 +1,541 @@
-import AY.Spec.Plain
+/-
+  AY.Props.C07 — unsafe content never reaches executed code, whatever is merged around it.
+
+  Property text: "No function is called, module imported or code evaluated on behalf of a !call,
+  !bind, !eval, f-string or !import node that is unsafe - marked !unsafe, below an !unsafe node,
+  read from a source added with safe=False, or included by such content - and no value originating
+  from unsafe content is ever passed to a call or resolved as a name by evaluated code; the build
+  fails with UnsafeError instead. Merging can only spread unsafety, never remove it: no ordering or
+  shape of safe stages before or after makes an unsafe dynamic node run."
+
+  The statements are about the executable definitions of AY.Model.Flags (`eSafe`), AY.Model.Merge
+  (`mergeSafe`, `replaceSelfFlags`, `replaceOtherFlags`, `leafRule`, `finishMerge`) and
+  AY.Model.Eval (`evalImpl`, `evalNodeF`, `evalItems`, `ecfgLookup`, `evaluate`). The only
+  observable trace of an execution in the model is `EvSt.log`: one entry per function called,
+  module imported, code evaluated. Only property theorems live here; lemmas are in
+  AY.Lemmas.EvalLemmas (`Placed`, `Calls`, `DynSafe`, `WF`, `Ext`, `evalImpl_lift`),
+  AY.Lemmas.OnceLemmas (`Cov`, `evaluate_dyn_logged`) and AY.Lemmas.SafeFlagLemmas.
+
+  Reading of the execution theorems. `Except` drops the state of a failing run, so the log can
+  only be observed for successful runs; for failing runs the guard theorem `C07_exec_guarded`
+  (stated for an *arbitrary* recursive evaluator `rec`) says that the four executing node kinds
+  return `UnsafeError` before doing anything when the node is unsafe, and `C07_log_monotone` says
+  that these four places are the only ones where `evalImpl` extends the log.
+
+  Finding (see `C07_taint_laundering`): the clause "no value originating from unsafe content is
+  ever passed to a call" is FALSE for the model (and for the library): a value computed from an
+  !unsafe node can reach a call through two references. What holds is stated in
+  `C07_args_only_safe`, `C07_call_args_untainted`, `C07_taint_sound`.
+-/
+import AY.Lemmas.OnceLemmas
+import AY.Lemmas.SafeFlagLemmas
 namespace AY
-theorem C07_placeholder : foldUpd [] = .error .value := rfl
+
+/-! ### Merging: the flag algebra -/
+
+/- "Merging can only spread unsafety, never remove it" — `mergeSafe w l` is the safety part of
+   `_replace_self` / `_replace_other` (w: the node that stays, l: the node merged into it).
+   The result is safe exactly when the staying node was safe, the other node carries no explicit
+   `safe=False` and the other node's source was safe. The *inherited* flag `iSafe` of the other
+   node plays no role at this level (see `C07_merge_iSafe_role`). -/
+theorem C07_merge_conj (w l : Flags) :
+    eSafe (mergeSafe w l) = (eSafe w && (l.safe != some false) && l.dSafe) := by
+  obtain ⟨_, _, _, ws, _, _, wi, wd, _, _⟩ := w
+  obtain ⟨_, _, _, ls, _, _, li, ld, _, _⟩ := l
+  simp only [eSafe, mergeSafe]
+  cases ls with
+  | none => cases ws.getD true <;> cases wi.getD true <;> cases wd <;> cases ld <;> rfl
+  | some b =>
+    cases b <;> cases ws.getD true <;> cases wi.getD true <;> cases wd <;> cases ld <;> rfl
+
+example :
+    eSafe (mergeSafe { safe := none, iSafe := some true } { safe := some true }) = true ∧
+    eSafe (mergeSafe { safe := some true } { safe := some false }) = false ∧
+    eSafe (mergeSafe { safe := some true } { dSafe := false }) = false ∧
+    eSafe (mergeSafe { iSafe := some false } { safe := some true }) = false := by decide
+
+/- the same as an implication: "the merged node is safe only if both inputs were safe w.r.t.
+   explicit and source-level flags" -/
+theorem C07_merge_safe_only_if (w l : Flags) (h : eSafe (mergeSafe w l) = true) :
+    eSafe w = true ∧ l.safe ≠ some false ∧ l.dSafe = true := by
+  rw [C07_merge_conj] at h
+  simp only [Bool.and_eq_true, bne_iff_ne, ne_eq] at h
+  exact ⟨h.1.1, h.1.2, h.2⟩
+
+example : eSafe (mergeSafe { safe := some true, iSafe := some true } { safe := some true }) = true := by decide
+
+/- "never remove it": whatever is merged onto an unsafe node, and whatever an unsafe (explicitly
+   or by source) node is merged onto, the result is unsafe -/
+theorem C07_merge_never_heals (w l : Flags)
+    (h : eSafe w = false ∨ l.safe = some false ∨ l.dSafe = false) : eSafe (mergeSafe w l) = false := by
+  rw [C07_merge_conj]
+  rcases h with h | h | h <;> simp [h]
+
+example : eSafe (mergeSafe { safe := some false } { safe := some true, prio := some 1 }) = false := by decide
+
+/- the role of `iSafe`: the staying node keeps its own inherited flag, the inherited flag of the
+   other node is not looked at. (Unsafety inherited by the *other* node comes from an ancestor whose
+   explicit flag is merged into the corresponding ancestor of the staying node and pushed down again
+   by `propagate`/`adopt`, where an inherited `False` is sticky: `updFlags`.) -/
+theorem C07_merge_iSafe_role (w l : Flags) (x : Option Bool) :
+    (mergeSafe w l).iSafe = w.iSafe ∧ mergeSafe w { l with iSafe := x } = mergeSafe w l :=
+  ⟨rfl, rfl⟩
+
+example : eSafe { iSafe := some false } = false ∧
+    eSafe (mergeSafe {} { iSafe := some false }) = true := by decide
+
+/- lifted to `_replace_other` (self wins) and `_replace_self` (other wins): they change priority,
+   delete flag and metadata besides, none of which `eSafe` reads -/
+theorem C07_replaceOther_conj (w l : Flags) :
+    eSafe (replaceOtherFlags w l) = (eSafe w && (l.safe != some false) && l.dSafe) :=
+  C07_merge_conj w l
+
+theorem C07_replaceSelf_conj (s o : Flags) :
+    eSafe (replaceSelfFlags s o) = (eSafe s && (o.safe != some false) && o.dSafe) :=
+  C07_merge_conj s o
+
+example : eSafe (replaceSelfFlags { safe := some false } { prio := some 1, safe := some true }) = false ∧
+    eSafe (replaceOtherFlags { prio := some 1 } { safe := some false }) = false := by decide
+
+/- lifted to `ConfigNode.on_merge_impl` (`leafRule`): whichever node wins, the result is safe iff
+   the winner was safe (explicit, inherited, source) and the loser had no explicit `safe=False`
+   and a safe source -/
+theorem C07_leafRule_conj (s o : Node) :
+    eSafe (leafRule s o).1.flags =
+      if hasPrio s.flags o.flags false then eSafe s.flags && (o.flags.safe != some false) && o.flags.dSafe
+      else eSafe o.flags && (s.flags.safe != some false) && s.flags.dSafe := by
+  unfold leafRule
+  split <;> simp only [setFlags_flags, C07_replaceOther_conj]
+
+theorem C07_leafRule_safe_only_if (s o : Node) (h : eSafe (leafRule s o).1.flags = true) :
+    s.flags.safe ≠ some false ∧ o.flags.safe ≠ some false ∧ s.flags.dSafe = true ∧ o.flags.dSafe = true ∧
+    (eSafe s.flags = true ∨ eSafe o.flags = true) := by
+  have hsafe : ∀ f : Flags, eSafe f = true → f.safe ≠ some false ∧ f.dSafe = true := by
+    intro f hf
+    simp only [eSafe, Bool.and_eq_true] at hf
+    refine ⟨?_, hf.2⟩
+    intro e; rw [e] at hf; simp at hf
+  rw [C07_leafRule_conj] at h
+  split at h <;>
+    simp only [Bool.and_eq_true, bne_iff_ne, ne_eq] at h
+  · exact ⟨(hsafe _ h.1.1).1, h.1.2, (hsafe _ h.1.1).2, h.2, .inl h.1.1⟩
+  · exact ⟨h.1.2, (hsafe _ h.1.1).1, h.2, (hsafe _ h.1.1).2, .inr h.1.1⟩
+
+/-- an unsafe `!import` leaf and a safe scalar that overrides it with higher priority -/
+def c07ExUnsafeLeaf : Node := .leaf { safe := some false } (.imp "os")
+def c07ExOverride : Node := .leaf { prio := some 1, safe := some true } (.scalar (.int 1))
+
+example : eSafe (leafRule c07ExUnsafeLeaf c07ExOverride).1.flags = false ∧
+    eSafe (leafRule c07ExOverride c07ExUnsafeLeaf).1.flags = false := by decide
+example : eSafe (leafRule (.leaf {} (.imp "os")) c07ExOverride).1.flags = true := by decide
+
+/- lifted to the tail of `ComposedNode.on_merge_impl` (`finishMerge`, with promotions): the flags of
+   the resulting container -/
+theorem C07_finishMerge_conj {sf : Flags} {sk : CompKind} {scs : List (Key × Node)} {o r : Node} {b : Bool}
+    (h : finishMerge sf sk scs o = .ok (r, b)) :
+    eSafe r.flags = (eSafe sf && (o.flags.safe != some false) && o.flags.dSafe) := by
+  unfold finishMerge at h
+  split at h
+  · split at h
+    · cases h
+    · rename_i r' same hp
+      cases h
+      rw [propagate_flags, maybePromote_flags hp, C07_replaceSelf_conj]
+  · rw [maybePromote_flags h, C07_replaceOther_conj]
+
+example : ∃ r b, finishMerge { safe := some false } (.call "f") [] (.comp { prio := some 1 } .dict []) = .ok (r, b) ∧
+    eSafe r.flags = false := ⟨_, _, rfl, by decide⟩
+
+/-! ### Execution is guarded -/
+
+/- "No function is called, module imported or code evaluated on behalf of a !call, !bind, !eval
+   … or !import node that is unsafe …; the build fails with UnsafeError instead": for every
+   recursive evaluator, every state and both modes, `on_evaluate_impl` of an unsafe executing node
+   is `UnsafeError`; nothing is evaluated (not even the arguments) and no state is produced.
+   (`dynWhat n = some what` says that `n` is a `!call`, `!bind`, `!eval` or `!import` node; f-strings
+   are outside the modelled domain: `evalImpl` returns `unsupported` for them.) -/
+theorem C07_exec_guarded (rec : Rec) (root : Node) (w : World) (rs : Bool) (n : Node) (path : Path)
+    (st : EvSt) (what : String) (hd : dynWhat n = some what) (hs : eSafe n.flags = false) :
+    evalImpl rec root w rs n path st = .error .unsafeE := by
+  cases n with
+  | leaf f lk =>
+    cases lk <;> simp [dynWhat] at hd <;> simp_all [evalImpl, Node.flags]
+  | comp f k cs =>
+    cases k <;> simp [dynWhat] at hd <;> simp_all [evalImpl, Node.flags]
+
+/-- `c: !unsafe !call f {a: 1}` inside a mapping -/
+def c07ExUnsafeCall : Node := .comp { safe := some false } (.call "f") [(.str "a", .leaf {} (.scalar (.int 1)))]
+def c07ExWorld : World :=
+  { sigs := [("f", [{ name := "a", kind := .posOrKw }])], modules := ["os"], syms := ["T"] }
+
+example : dynWhat c07ExUnsafeCall = some "call:f" ∧ eSafe c07ExUnsafeCall.flags = false := by decide
+example : evaluate c07ExWorld (.comp {} .dict [(.str "c", c07ExUnsafeCall)]) = .error .unsafeE := rfl
+
+/- the log is only extended by `on_evaluate_impl` of a *safe* executing node: if every recursive
+   call keeps an invariant `I` and a preorder `R` on states, then `evalImpl` keeps them up to at
+   most one new log entry, which is written for the node itself and only if it is a safe
+   `!call` / `!bind` / `!eval` / `!import` node (`DynSafe n what`). -/
+theorem C07_log_monotone {I : EvSt → Prop} {R : EvSt → EvSt → Prop}
+    (hrefl : ∀ s, R s s) (htrans : ∀ a b c, R a b → R b c → R a c)
+    {rec : Rec} {root : Node} {w : World} {rs : Bool} {n : Node} {path : Path} {st st' : EvSt} {v : Val}
+    (hrec : ∀ rs' m p s v s', Calls root rs n path rs' m p → I s → rec rs' m p s = .ok (v, s') → I s' ∧ R s s')
+    (hI : I st) (h : evalImpl rec root w rs n path st = .ok (v, st')) :
+    ∃ st1, I st1 ∧ R st st1 ∧
+      (st' = st1 ∨ ∃ what, DynSafe n what ∧
+        st' = { st1 with log := st1.log ++ [{ path := path, what := what }] }) :=
+  evalImpl_lift hrefl htrans hrec hI h
+
+example : ∃ v st', evalImpl (evalNodeF (.leaf {} (.imp "os")) { modules := ["os"] } 3) (.leaf {} (.imp "os"))
+    { modules := ["os"] } false (.leaf {} (.imp "os")) [] {} = .ok (v, st') ∧
+    st'.log = [⟨[], "import:os"⟩] ∧ DynSafe (.leaf {} (.imp "os")) "import:os" := by
+  refine ⟨_, _, rfl, ?_, ?_, ?_⟩ <;> rfl
+
+/-- a tree with a safe call consuming a safe import through a reference, and a safe bind consuming
+    the call (`!eval` code is left out of the concrete examples: `parseNames` works on string
+    slices, which the kernel does not reduce) -/
+def c07ExSafeTree : Node :=
+  .comp {} .dict [
+    (.str "m", .leaf {} (.imp "os")),
+    (.str "c", .comp {} (.call "f") [(.str "a", .leaf {} (.xref "m"))]),
+    (.str "b", .comp {} (.bind "f") [(.str "a", .leaf {} (.xref "c"))])]
+
+/- "No function is called …" for a whole successful evaluation: every entry the evaluation of a
+   node of the tree adds to the log was written for a node `m` of the tree (`Placed root m e.path`)
+   that is safe (`eSafe m.flags`) and is a `!call`/`!bind`/`!eval`/`!import` node whose label is the
+   logged one. This covers nodes reached through cross-references and through names in `!eval`
+   code (they are looked up in `root` by `getNode`). -/
+theorem C07_exec_only_safe (root : Node) (w : World) (fuel : Nat) (rs : Bool) (n : Node) (path : Path)
+    (st st' : EvSt) (v : Val) (hp : Placed root n path)
+    (h : evalNodeF root w fuel rs n path st = .ok (v, st')) :
+    ∃ new, st'.log = st.log ++ new ∧
+      ∀ e, e ∈ new → ∃ m, Placed root m e.path ∧ eSafe m.flags = true ∧ dynWhat m = some e.what := by
+  obtain ⟨new, h1, h2⟩ := evalNodeF_logExt root w fuel rs n path st v st' hp h
+  refine ⟨new, h1, fun e he => ?_⟩
+  obtain ⟨m, hm, hs, hd⟩ := h2 e he
+  exact ⟨m, hm, hs, hd⟩
+
+theorem C07_evaluate_only_safe (w : World) (root : Node) (v : Val) (st : EvSt)
+    (h : evaluate w root = .ok (v, st)) :
+    ∀ e, e ∈ st.log → ∃ m, Placed root m e.path ∧ eSafe m.flags = true ∧ dynWhat m = some e.what := by
+  obtain ⟨new, h1, h2⟩ := C07_exec_only_safe root w _ false root [] {} st v Placed.root h
+  intro e he
+  rw [h1] at he
+  exact h2 e (by simpa using he)
+
+/- for trees whose containers have pairwise distinct keys (every tree the library builds) the node
+   is the one `get_node` returns for the logged path -/
+theorem C07_evaluate_only_safe_getNode (w : World) (root : Node) (v : Val) (st : EvSt)
+    (huk : uniqueKeys root = true) (h : evaluate w root = .ok (v, st)) :
+    ∀ e, e ∈ st.log → ∃ m, getNode root e.path = some m ∧ eSafe m.flags = true ∧ dynWhat m = some e.what := by
+  intro e he
+  obtain ⟨m, hm, hs, hd⟩ := C07_evaluate_only_safe w root v st h e he
+  exact ⟨m, (placed_iff_getNode huk m _).1 hm, hs, hd⟩
+
+example : ∃ v st, evaluate c07ExWorld c07ExSafeTree = .ok (v, st) ∧ uniqueKeys c07ExSafeTree = true ∧
+    st.log.map (·.what) = ["import:os", "call:f", "bind:f"] := by
+  refine ⟨_, _, rfl, ?_, ?_⟩ <;> rfl
+
+/- "… the build fails with UnsafeError instead": (i) `evaluate_node` on an unsafe executing node
+   that is not memoised fails with UnsafeError in both modes, and errors of children are passed up
+   unchanged by `evalItems` / `evalImpl`; (ii) for a whole build of a tree with pairwise distinct keys:
+   if the tree contains an unsafe `!call` / `!bind` / `!eval` / `!import` node *anywhere*, the build
+   does not succeed (every dynamic node of the tree runs in a successful build —
+   `evaluate_dyn_logged` — and only safe ones run). The error class of the failing build need not be
+   UnsafeError when another error comes first. -/
+theorem C07_unsafe_dynamic_node_fails (root : Node) (w : World) (fuel : Nat) (rs : Bool) (n : Node)
+    (path : Path) (st : EvSt) (what : String) (hd : dynWhat n = some what) (hs : eSafe n.flags = false)
+    (hc : plookup path st.cache = none) (hp : path ∉ st.inProgress) :
+    evalNodeF root w (fuel + 1) rs n path st = .error .unsafeE := by
+  rw [evalNodeF_succ]
+  cases rs with
+  | true => simp [hs]
+  | false =>
+    simp [hc, hp, C07_exec_guarded _ root w false n path _ what hd hs]
+
+theorem C07_unsafe_dynamic_node_never_builds (w : World) (root : Node) (huk : uniqueKeys root = true)
+    (p : Path) (m : Node) (what : String) (hm : getNode root p = some m) (hd : dynWhat m = some what)
+    (hs : eSafe m.flags = false) : ∀ v st, evaluate w root ≠ .ok (v, st) := by
+  intro v st h
+  have hlog := (evaluate_dyn_logged huk h hm hd).1
+  obtain ⟨m', hm', hs', _⟩ := C07_evaluate_only_safe_getNode w root v st huk h _ hlog
+  simp only at hm'
+  rw [hm] at hm'; cases hm'
+  rw [hs] at hs'; cases hs'
+
+example : uniqueKeys (.comp {} .dict [(.str "d", .comp {} .list [(.int 0, c07ExUnsafeCall)])]) = true ∧
+    getNode (.comp {} .dict [(.str "d", .comp {} .list [(.int 0, c07ExUnsafeCall)])]) [.str "d", .int 0]
+      = some c07ExUnsafeCall := ⟨rfl, rfl⟩
+example : evalNodeF c07ExSafeTree c07ExWorld 3 false c07ExUnsafeCall [.str "c"] {} = .error .unsafeE := rfl
+
+/-! ### Arguments and names are evaluated under `require_all_safe` -/
+
+/- "no value originating from unsafe content is ever passed to a call or resolved as a name": the
+   arguments of a call/bind are evaluated by `evalItems rec true`, names of `!eval` code by
+   `ecfgLookup` (always strict); under `require_all_safe` (i) an unsafe node is refused, (ii) a
+   memoised value that is tainted is refused -/
+theorem C07_args_only_safe (root : Node) (w : World) (fuel : Nat) (n : Node) (path : Path) (st : EvSt) :
+    (eSafe n.flags = false → evalNodeF root w (fuel + 1) true n path st = .error .unsafeE) ∧
+    (∀ v, eSafe n.flags = true → plookup path st.cache = some v → path ∈ st.tainted →
+      evalNodeF root w (fuel + 1) true n path st = .error .unsafeE) := by
+  refine ⟨?_, ?_⟩
+  · intro hs
+    rw [evalNodeF_succ]; simp [hs]
+  · intro v hs hc ht
+    rw [evalNodeF_succ]; simp [hs, bump_safe hs, hc, ht]
+
+example : evalNodeF c07ExSafeTree c07ExWorld 5 true c07ExUnsafeCall [.str "x"] {} = .error .unsafeE ∧
+    evalNodeF c07ExSafeTree c07ExWorld 5 true (.leaf {} (.scalar .null)) [.str "x"]
+      { cache := [([.str "x"], .scalar .null)], tainted := [[.str "x"]] } = .error .unsafeE := ⟨rfl, rfl⟩
+
+/- (iii) the same for references followed in strict mode and for names: `ctx.get_node` /
+   `ecfg[name]` refuse a tainted memoised value -/
+theorem C07_lookup_refuses_tainted (rec : Rec) (root : Node) (p : Path) (nm : String) (st : EvSt) (v : Val) :
+    (plookup p st.cache = some v → p ∈ st.tainted → ctxGetNode root true p st = .error .unsafeE) ∧
+    (plookup [Key.str nm] st.cache = some v → [Key.str nm] ∈ st.tainted →
+      ecfgLookup rec root nm st = .error .unsafeE) := by
+  refine ⟨?_, ?_⟩
+  · intro hc ht; simp [ctxGetNode, hc, ht]
+  · intro hc ht; simp [ecfgLookup, hc, ht]
+
+example : ctxGetNode c07ExSafeTree true [.str "m"]
+    { cache := [([.str "m"], .sym "os")], tainted := [[.str "m"]] } = .error .unsafeE := rfl
+
+/- a successful strict evaluation (what arguments and names go through) visits no unsafe node at
+   all — the counter of visited unsafe nodes does not move —, the evaluated node is safe and the
+   value is memoised under an untainted path. `WF` is the state invariant of the evaluator; it holds
+   initially (`WF.init`) and is preserved (`C07_state_invariant`). -/
+theorem C07_strict_eval_clean (root : Node) (w : World) (fuel : Nat) (n : Node) (path : Path)
+    (st st' : EvSt) (v : Val) (hwf : WF st)
+    (h : evalNodeF root w fuel true n path st = .ok (v, st')) :
+    eSafe n.flags = true ∧ st'.unsafeSeen = st.unsafeSeen ∧
+    plookup path st'.cache = some v ∧ path ∉ st'.tainted :=
+  ⟨(evalNodeF_rs_untainted hwf h).1, evalNodeF_rs_seen root w fuel n path st v st' h,
+   evalNodeF_cached h, (evalNodeF_rs_untainted hwf h).2⟩
+
+theorem C07_state_invariant (root : Node) (w : World) (fuel : Nat) (rs : Bool) (n : Node) (path : Path)
+    (st st' : EvSt) (v : Val) (hwf : WF st)
+    (h : evalNodeF root w fuel rs n path st = .ok (v, st')) : WF st' ∧ Ext st st' :=
+  evalNodeF_wf root w fuel rs n path st v st' hwf h
+
+example : ∃ v st', evalNodeF c07ExSafeTree c07ExWorld 9 true c07ExSafeTree [] {} = .ok (v, st') ∧
+    st'.tainted = [] := by
+  refine ⟨_, _, rfl, ?_⟩; rfl
+
+/- a function node (`!call` / `!bind`) that evaluates successfully is safe, all its argument nodes
+   are safe, no unsafe node was visited while the arguments were evaluated, and every argument
+   value is the memoised value of an untainted path -/
+theorem C07_call_args_untainted (root : Node) (w : World) (fuel : Nat) (rs : Bool) (f : Flags)
+    (k : CompKind) (cs : List (Key × Node)) (path : Path) (st st' : EvSt) (v : Val)
+    (hk : k.isFunc = true) (hwf : WF st)
+    (h : evalImpl (evalNodeF root w fuel) root w rs (.comp f k cs) path st = .ok (v, st')) :
+    eSafe f = true ∧ (∀ key c, (key, c) ∈ cs → eSafe c.flags = true) ∧
+    st'.unsafeSeen = st.unsafeSeen ∧
+    ∃ items : List (Key × Val), items.map (·.1) = cs.map (·.1) ∧
+      ∀ key a, (key, a) ∈ items → plookup (path ++ [key]) st'.cache = some a ∧ path ++ [key] ∉ st'.tainted := by
+  have fin : ∀ (items : List (Key × Val)) (st1 : EvSt),
+      evalItems (evalNodeF root w fuel) true path cs st = .ok (items, st1) →
+      st'.cache = st1.cache → st'.tainted = st1.tainted → st'.unsafeSeen = st1.unsafeSeen →
+      (!eSafe f) ≠ true →
+      eSafe f = true ∧ (∀ key c, (key, c) ∈ cs → eSafe c.flags = true) ∧
+      st'.unsafeSeen = st.unsafeSeen ∧
+      ∃ items : List (Key × Val), items.map (·.1) = cs.map (·.1) ∧
+        ∀ key a, (key, a) ∈ items → plookup (path ++ [key]) st'.cache = some a ∧ path ++ [key] ∉ st'.tainted := by
+    intro items st1 he h1 h2 h3 hs
+    have ⟨_, hR, hkeys, hsafe, hvals⟩ := evalItems_rs cs st items st1 hwf he
+    refine ⟨by simpa using hs, hsafe, by rw [h3, hR.2], items, hkeys, ?_⟩
+    intro key a hm
+    rw [h1, h2]
+    exact hvals key a hm
+  cases k with
+  | call fn =>
+    simp only [evalImpl] at h
+    split at h
+    · cases h
+    · rename_i hs
+      split at h
+      · cases h
+      · split at h
+        · cases h
+        · rename_i items st1 he
+          split at h
+          · cases h
+          · split at h
+            · cases h
+            · cases h; exact fin items st1 he rfl rfl rfl hs
+  | bind fn =>
+    simp only [evalImpl] at h
+    split at h
+    · cases h
+    · rename_i hs
+      split at h
+      · cases h
+      · split at h
+        · cases h
+        · rename_i items st1 he
+          split at h
+          · cases h
+          · split at h
+            · cases h
+            · cases h; exact fin items st1 he rfl rfl rfl hs
+  | _ => simp [CompKind.isFunc] at hk
+
+example : ∃ v st', evalImpl (evalNodeF c07ExSafeTree c07ExWorld 9) c07ExSafeTree c07ExWorld false
+    (.comp {} (.call "f") [(.str "a", .leaf {} (.xref "m"))]) [.str "c"] {} = .ok (v, st') ∧
+    st'.log.map (·.what) = ["import:os", "call:f"] := by
+  refine ⟨_, _, rfl, ?_⟩; rfl
+
+/- the same for a name resolved by `!eval` code through the config (`ecfg[name]`) -/
+theorem C07_eval_names_untainted (root : Node) (w : World) (fuel : Nat) (nm : String)
+    (st st' : EvSt) (v : Val) (hwf : WF st)
+    (h : ecfgLookup (evalNodeF root w fuel) root nm st = .ok (v, st')) :
+    st'.unsafeSeen = st.unsafeSeen ∧ plookup [Key.str nm] st'.cache = some v ∧
+    [Key.str nm] ∉ st'.tainted := by
+  unfold ecfgLookup at h
+  simp only at h
+  split at h
+  · rename_i v0 hv0
+    split at h
+    · cases h
+    · rename_i ht
+      cases h
+      exact ⟨rfl, hv0, by simpa using ht⟩
+  · split at h
+    · cases h
+    · split at h
+      · cases h
+      · rename_i n hn
+        have := C07_strict_eval_clean root w fuel n _ st st' v hwf h
+        exact ⟨this.2.1, this.2.2.1, this.2.2.2⟩
+
+example : ∃ v st', ecfgLookup (evalNodeF c07ExSafeTree c07ExWorld 9) c07ExSafeTree "c" {} = .ok (v, st') ∧
+    st'.tainted = [] := by
+  refine ⟨_, _, rfl, ?_⟩; rfl
+
+/- the taint invariant: a (fresh) evaluation during which an unsafe node was visited — the node
+   itself, or any node evaluated on the way, which is what the counter records — memoises its
+   result as tainted -/
+theorem C07_taint_sound (root : Node) (w : World) (fuel : Nat) (rs : Bool) (n : Node) (path : Path)
+    (st st' : EvSt) (v : Val) (hfresh : plookup path st.cache = none)
+    (h : evalNodeF root w fuel rs n path st = .ok (v, st'))
+    (hu : st'.unsafeSeen ≠ st.unsafeSeen ∨ eSafe n.flags = false) : path ∈ st'.tainted := by
+  cases fuel with
+  | zero => simp [evalNodeF] at h
+  | succ fuel =>
+    obtain ⟨_, hcase⟩ := evalNodeF_ok_inv h
+    rcases hcase with ⟨hv, _, _⟩ | ⟨_, _, st2, _, rfl⟩
+    · rw [hfresh] at hv; cases hv
+    · rw [finish_tainted]
+      simp only [finish_unsafeSeen] at hu
+      cases hs : eSafe n.flags with
+      | false => simp
+      | true =>
+        have hb : bump n st = st := bump_safe hs st
+        rw [hb]
+        rcases hu with hu | hu
+        · simp [hu]
+        · rw [hs] at hu; cases hu
+
+/- without the freshness hypothesis the statement is false for an arbitrary state: in non-strict
+   mode a memo hit on an `!unsafe` node bumps the counter and taints nothing … -/
+example : ∃ st', evalNodeF c07ExSafeTree c07ExWorld 1 false (.leaf { safe := some false } (.scalar .null)) [.str "x"]
+    { cache := [([.str "x"], .scalar .null)] } = .ok (.scalar .null, st') ∧
+    st'.unsafeSeen = 1 ∧ st'.tainted = [] := by
+  refine ⟨_, rfl, ?_, ?_⟩ <;> rfl
+
+/- … but such a state never arises: in the states of a build of a tree with pairwise distinct keys
+   (`Cov root st`: holds initially — `Cov.init` — and is preserved — `evalNodeF_cov`) the memoised
+   value of an unsafe node is tainted, so the taint invariant holds for memo hits too -/
+theorem C07_taint_sound_reachable (root : Node) (w : World) (huk : uniqueKeys root = true) (fuel : Nat)
+    (rs : Bool) (n : Node) (path : Path) (st st' : EvSt) (v : Val) (hp : Placed root n path)
+    (hcov : Cov root st) (h : evalNodeF root w fuel rs n path st = .ok (v, st'))
+    (hu : st'.unsafeSeen ≠ st.unsafeSeen ∨ eSafe n.flags = false) :
+    Cov root st' ∧ path ∈ st'.tainted := by
+  have hcov' := evalNodeF_cov root w huk fuel rs n path st v st' hp hcov h
+  refine ⟨hcov', ?_⟩
+  cases hc : plookup path st.cache with
+  | none => exact C07_taint_sound root w fuel rs n path st st' v hc h hu
+  | some a =>
+    have hs : eSafe n.flags = false := by
+      rcases hu with hu | hu
+      · cases fuel with
+        | zero => simp [evalNodeF] at h
+        | succ fuel =>
+          obtain ⟨_, hcase⟩ := evalNodeF_ok_inv h
+          rcases hcase with ⟨_, _, rfl⟩ | ⟨hnone, _⟩
+          · cases hs : eSafe n.flags with
+            | false => rfl
+            | true => rw [bump_safe hs] at hu; exact absurd rfl hu
+          · rw [hc] at hnone; cases hnone
+      · exact hu
+    have hc' : plookup path st'.cache ≠ none := by rw [evalNodeF_cached h]; simp
+    exact hcov'.utaint path n hc' (hp.getNode_uniq huk).1 hs
+
+/-- `{u: !unsafe 7, d: {x: !xref u}}` -/
+def c07ExTaintTree : Node :=
+  .comp {} .dict [
+    (.str "u", .leaf { safe := some false } (.scalar (.int 7))),
+    (.str "d", .comp {} .dict [(.str "x", .leaf {} (.xref "u"))])]
+
+example : uniqueKeys c07ExTaintTree = true ∧ Placed c07ExTaintTree c07ExTaintTree [] ∧
+    Cov c07ExTaintTree {} := ⟨rfl, Placed.root, Cov.init _⟩
+
+example : ∃ v st', evalNodeF c07ExTaintTree {} 9 false c07ExTaintTree [] {} = .ok (v, st') ∧
+    st'.unsafeSeen ≠ ({} : EvSt).unsafeSeen ∧ st'.tainted = [[], [.str "u"]] := by
+  refine ⟨_, _, rfl, ?_, ?_⟩
+  · decide
+  · rfl
+
+/- taint is persistent: later successful evaluations never change a memoised value, never untaint
+   a path and never taint a path that was already memoised -/
+theorem C07_taint_persistent (root : Node) (w : World) (fuel : Nat) (rs : Bool) (n : Node) (path : Path)
+    (st st' : EvSt) (v : Val) (hwf : WF st)
+    (h : evalNodeF root w fuel rs n path st = .ok (v, st')) :
+    (∀ p a, plookup p st.cache = some a → plookup p st'.cache = some a) ∧
+    (∀ p, p ∈ st.tainted → p ∈ st'.tainted) ∧
+    (∀ p a, plookup p st.cache = some a → p ∉ st.tainted → p ∉ st'.tainted) := by
+  have hext := (evalNodeF_wf root w fuel rs n path st v st' hwf h).2
+  refine ⟨hext.cache, hext.taint, ?_⟩
+  intro p a hc hnt ht
+  rcases hext.taintNew p ht with h1 | h1
+  · exact hnt h1
+  · rw [hc] at h1; cases h1
+
+example : WF ({} : EvSt) ∧ ∃ v st', evalNodeF c07ExTaintTree {} 9 false c07ExTaintTree [] {} = .ok (v, st') :=
+  ⟨WF.init, _, _, rfl⟩
+
+/-! ### Finding: taint laundering through a non-strict reference
+
+  `C07_taint_sound` records *visited* unsafe nodes. A reference followed in non-strict mode to an
+  already memoised tainted value (`ctxGetNode root false`) returns that value without visiting a
+  node, so the container around the reference is memoised untainted, and a later strict lookup of
+  the container succeeds. With
+
+      q: !unsafe 7
+      p: {x: !xref q}
+      c: !call f {a: !xref p}
+
+  the call runs with `{x: 7}`, a value originating from the !unsafe node (the library behaves the
+  same: `Config.build` of this document calls `f({'x': 7})`, whereas `c: !call f {a: !xref q}`
+  raises UnsafeError). Hence the clause "no value originating from unsafe content is ever passed to
+  a call" does not hold; the theorems above state what does. -/
+
+def c07ExLaundering : Node :=
+  .comp {} .dict [
+    (.str "q", .leaf { safe := some false } (.scalar (.int 7))),
+    (.str "p", .comp {} .dict [(.str "x", .leaf {} (.xref "q"))]),
+    (.str "c", .comp {} (.call "f") [(.str "a", .leaf {} (.xref "p"))])]
+
+theorem C07_taint_laundering :
+    ∃ v st, evaluate c07ExWorld c07ExLaundering = .ok (v, st) ∧
+      st.log.map (·.what) = ["call:f"] ∧
+      plookup [.str "c"] st.cache =
+        some (.app [.str "c"] "f" [("a", .dict [.str "p"] [(.str "x", .scalar (.int 7))])] [] []) ∧
+      st.tainted = [[], [.str "q"]] := by
+  refine ⟨_, _, rfl, ?_, ?_, ?_⟩ <;> rfl
+
+/- the direct reference is refused -/
+example : evaluate c07ExWorld (.comp {} .dict [
+    (.str "q", .leaf { safe := some false } (.scalar (.int 7))),
+    (.str "c", .comp {} (.call "f") [(.str "a", .leaf {} (.xref "q"))])]) = .error .unsafeE := rfl
+
 end AY
